@@ -17,6 +17,9 @@ RULE = ("hand-written catalogue (the shape of defect F9 [hosts; redirect; cache]
         "case, black_hole, arbitrary, cache id rewrite and case-different names and opcode != 0, the cache admission "
         "rules, a 255-octet name, every kind of malformed query, advertised UDP sizes 0/511/512/513 and around the exact "
         "reply length, replies of exactly 512 and 513 bytes, upstream TC and extended rcode, jump/return around wrappers) "
+        "+ every fourth random case a program around one dual_selector (prefer_ipv4/6, pass and block, known names) or "
+        "one fallback over two sub-sequences (answering / failing / empty branches, standing by or not) with caches, "
+        "redirects and forwarders around and inside "
         "+ seeded random programs (1-3 sequences, 1-6 rules, matchers has_resp/qtype/_true/_false with '!', all action "
         "kinds) over pools of the REAL cache, redirect, hosts, black_hole, arbitrary, ttl, ecs_handler, forward_edns0opt, "
         "drop_resp and forward plugins (forward over scripted in-memory upstreams echoing id+question with any rcode, "
@@ -31,10 +34,13 @@ ASSUMPTIONS = [
     "observed UDP reply); responses carrying TSIG are outside that contract and outside the generator",
     "the pack function succeeds on a message of at most 65535 bytes unless its rcode is extended and it has no OPT",
     "Qtype and Qclass are 16 bit values; a record has type 41 exactly when miekg represents it as *dns.OPT",
-    "fallback, dual_selector and the lazy cache refresh are NOT modelled (listed as not covered); the transports "
-    "(ServeUDP/ServeTCP/DoH) are covered only as far as Handle's FromUDP flag and pack function",
-    "one program run takes less than 0.7 s of wall time (slower runs are repeated on fresh plugins): no cache entry "
-    "expires within a run; the theorems hold for any clock",
+    "the lazy cache refresh is NOT modelled; the transports (ServeUDP/ServeTCP/DoH) are covered only as far as "
+    "Handle's FromUDP flag and pack function",
+    "fallback and dual_selector: the concurrent sub-runs on context copies are modelled in sequence and their timers "
+    "are left out (threshold 60 s in the driver, reference query within its 500 ms grace period); the driver joins the "
+    "goroutines Handle started before observing and accepts any order of the upstream messages of one query",
+    "one program run takes less than 0.4 s of wall time (slower runs are repeated on fresh plugins): no cache entry "
+    "expires and no grace period runs out within a run; the theorems hold for any clock",
 ]
 TRUSTED_BASE = [
     "hand-written models coq/Model/Msg.v, Handler.v, Plugins.v (+ Model/Sequence.v of C06, key_of of C04) tied to "
@@ -47,15 +53,17 @@ TRUSTED_BASE = [
 ]
 LEVEL_TEXT = ("Theorems in coq/Properties/C03.v for EVERY sequence program (any nesting of jump/goto/return/accept/reject, "
               "any matchers) over the modelled plugins cache, redirect, hosts, black_hole, arbitrary, reject, ttl, "
-              "ecs_handler, forward_edns0opt, drop_resp and forward in front of upstreams that echo the question, every "
+              "ecs_handler, forward_edns0opt, the dual-stack selector, fallback (sub-programs nested to any depth), "
+              "drop_resp and forward in front of upstreams that echo the question, every "
               "query, every cache timing: malformed queries get no reply; a well-formed query gets exactly one reply with "
               "its own ID and question (proved with an invariant relative to the stack of names pushed by enclosing "
-              "redirects, and a cache-consistency invariant that needs the guard of commit 8cf695f), QR and RA set; it is "
+              "redirects — relaxed inside dual_selector's reference query, whose result is discarded —, and a "
+              "cache-consistency invariant that needs the guard of commit 8cf695f), QR and RA set; it is "
               "SERVFAIL on error, REFUSED on no answer, else the plugins' answer with RA forced and the response OPT "
               "appended; over UDP it is a truncation of that allowed by Msg.Truncate's contract, never longer than "
               "max(512, advertised) and with TC = TC || dropped. The model is run inside Coq on every case the Go driver "
               "observed on the real plugins behind the real EntryHandler.Handle, and Judge.C03.spec states the property "
               "on the observations alone.")
 LEVEL_NOTE = ("Trusted: Coq kernel + vm_compute; hand-written model tied to the code by the differential run; contracts of "
-              "miekg Truncate/Pack; upstreams echo the question. Not covered: fallback, dual_selector, lazy cache "
-              "refresh, the socket-level servers. No axioms.")
+              "miekg Truncate/Pack; upstreams echo the question. Not covered: lazy cache refresh, the timers of "
+              "fallback/dual_selector, the socket-level servers. No axioms.")
